@@ -209,6 +209,19 @@ def check_c14(tier, seed, repo):
                             bad = "points of r + %s are not the points of r moved" % sh
                         if (q - s) != r or hash(q - s) != hash(r):
                             bad = "(r + %s) - %s != r" % (sh, sh)
+                # a nominal and an exact interval that reach the same last point still
+                # denote different recurrences ("differ in ... interval => unequal")
+                if kind == "nominal" and reps is not None and reps >= 2 and fmt == 3:
+                    try:
+                        span = (r.end_point - r.start_point).get_seconds()
+                        if span > 0 and span % (reps - 1) == 0:
+                            twin = data.TimeRecurrence(
+                                repetitions=reps, start_point=r.start_point,
+                                duration=data.Duration(seconds=span // (reps - 1)))
+                            if twin.end_point == r.end_point and (twin == r or r == twin):
+                                bad = "equal to the exact-interval recurrence %s" % _S(twin)
+                    except Exception as e:
+                        bad = "twin construction raised %s: %s" % (type(e).__name__, e)
                 try:
                     back = R.parse(str(r))
                     if back != r or hash(back) != hash(r) or take(back, 4) != take(r, 4):
